@@ -140,6 +140,15 @@ Definition graffiti_of (g : graffiti_in) : list N :=
 Definition unblind_candidates (all_flag : bool) (a : auction) : list prov :=
   if (lenN (au_providers a) =? 0) || all_flag then au_all a else au_providers a.
 
+(* an unblinded Deneb proposal whose contents are nil: not something the decoders deliver *)
+Definition lib_nil_deneb (p : proposal) : bool :=
+  (pr_version p =? 5) && negb (pr_blinded p) && negb (pr_present p).
+
+(* what go-eth2-client's decoders guarantee about a proposal they deliver (as far as this path
+   depends on it) *)
+Definition delivered (i : p1_in) : Prop :=
+  forall p, p1_proposal i = Some p -> lib_nil_deneb p = false.
+
 Definition propose (nil_guard : bool) (i : p1_in) : p1_out :=
   let g := graffiti_of (p1_graffiti i) in
   let tr signed unb sub := {| t_graffiti := g; t_signed := signed; t_unblind := unb; t_submitted := sub |} in
@@ -148,8 +157,11 @@ Definition propose (nil_guard : bool) (i : p1_in) : p1_out :=
   match p1_proposal i with
   | None => (tr false [] false, Err EProposal)
   | Some p =>
+      (* outside what the decoders deliver: go-eth2-client's proposalPresent evaluates
+         v.Deneb.Block on a nil v.Deneb (every other missing container is an ErrDataMissing) *)
+      if lib_nil_deneb p then (tr false [] false, Panic)
       (* confirmProposalData: proposal.Slot() fails when the data is missing or the version unknown *)
-      if negb (version_handled (pr_version p) && pr_present p) then (tr false [] false, Err EConfirm)
+      else if negb (version_handled (pr_version p) && pr_present p) then (tr false [] false, Err EConfirm)
       else if negb (pr_slot_ok p) then (tr false [] false, Err EConfirm)
       (* signProposalData *)
       else if negb (p1_sign_ok i) then (tr false [] false, Err ESign)
